@@ -2,7 +2,7 @@
    PUSH0 switch; here it is instantiated with the tables regenerated from vyper/evm/opcodes.py
    (GenOpcodes.v) where a fact about the table is needed. *)
 From Coq Require Import ZArith List Bool String Lia.
-From Verif Require Import Base.PyInt C16.Asm C16.HexBytes C16.PushProofs C16.AsmProofs C16.EvmOpcodes C16.GenOpcodes.
+From Verif Require Import Base.PyInt C16.Asm C16.HexBytes C16.PushProofs C16.AsmProofs C16.DecodeProofs C16.EvmOpcodes C16.GenOpcodes.
 Import ListNotations.
 Open Scope list_scope.
 Open Scope Z_scope.
@@ -51,6 +51,29 @@ Theorem label_is_jumpdest : forall v asm bs sm cm l,
   exists off, lookup sm l = Some off /\ valid_jumpdest bs off.
 Proof. intros v asm bs sm cm l I. apply label_is_jumpdest_model. apply jumpdest_in_tables. exact I. Qed.
 Print Assumptions label_is_jumpdest.
+
+(* decode_emit_roundtrip: the independent decoder, run on the assembled bytes, finds every instruction-starting
+   item (mnemonic, Label, PUSHLABEL, PUSH_OFST) at the pc pass 1 assigned, with the opcode byte the item emitted
+   and, for label/constant pushes, exactly the item's immediates; decoding is lossless on any byte string and
+   its instruction starts are the EVM jumpdest-analysis boundaries. *)
+Theorem decode_emit_roundtrip : forall v asm bs sm cm p h s,
+  In v evm_versions ->
+  assemble (opcode_table v) (has_push0 v) asm = Ok (bs, sm, cm) -> wf_asm (opcode_table v) asm = true ->
+  asm = p ++ h :: s -> is_head (opcode_table v) h = true ->
+  exists bp op rest,
+    emit (opcode_table v) (has_push0 v) sm cm p = Ok bp /\
+    pc_after (opcode_table v) (has_push0 v) cm p 0 = Ok (zlen bp) /\
+    emit_item (opcode_table v) (has_push0 v) sm cm h = Ok (op :: rest) /\
+    In (zlen bp, op, firstn (push_width op) (skipn (S (Z.to_nat (zlen bp))) bs)) (decode bs) /\
+    (List.length rest = push_width op -> firstn (push_width op) (skipn (S (Z.to_nat (zlen bp))) bs) = rest).
+Proof.
+  intros v asm bs sm cm p h s I. apply decode_emit_roundtrip_model. apply jumpdest_in_tables. exact I.
+Qed.
+Print Assumptions decode_emit_roundtrip.
+
+Theorem decode_is_lossless : forall bs,
+  List.concat (map enc (decode bs)) = bs /\ map ipc (decode bs) = boundaries bs.
+Proof. intro bs. split; [apply decode_lossless | apply decode_starts_are_boundaries]. Qed.
 
 Theorem pushlabel_value : forall tbl push0 sm cm l b,
   emit_item tbl push0 sm cm (IPushLabel l) = Ok b ->
